@@ -223,6 +223,12 @@ impl<W: 'static, R: 'static, T: 'static, V: Debug + 'static> XMapping<W, R, T, V
 }
 
 impl<W: 'static, R: 'static, T: 'static, V: Debug + 'static> XNativeValue for XMapping<W, R, T, V> {
+    #[cfg(xray_verif)]
+    fn verif_payload(&self) -> usize {
+        self.inner.values().map(|b| b.len()).sum::<usize>()
+            * (size_of::<usize>() + size_of::<V>())
+    }
+
     fn dyn_size(&self) -> usize {
         (self.inner.len() * size_of::<MappingBucket<W, R, T, V>>())
             + (self.len * size_of::<Rc<ManagedXValue<W, R, T>>>())
@@ -737,4 +743,17 @@ pub(crate) fn add_mapping_dyn_new<W, R, T>(
             ))
         },
     )
+}
+
+#[cfg(xray_verif)]
+impl<W, R, T, V> XMapping<W, R, T, V> {
+    pub(crate) fn verif_len(&self) -> usize {
+        self.len
+    }
+
+    pub(crate) fn verif_table(&self) -> Vec<(u64, &MappingBucket<W, R, T, V>)> {
+        let mut ret: Vec<_> = self.inner.iter().map(|(h, b)| (*h, b)).collect();
+        ret.sort_by_key(|(h, _)| *h);
+        ret
+    }
 }
